@@ -1,5 +1,6 @@
 import SfVerif.Model.Writer
 import SfVerif.Lemmas.Codes
+import SfVerif.Lemmas.Zipper
 /-! C03 — the writer enforces the document grammar; a rejected call changes nothing. -/
 namespace SfVerif.Props.C03
 open SfVerif SfVerif.Gen
@@ -13,5 +14,50 @@ theorem C03_reject_noop (w : Writer) (op : WOp) (h : (w.step op).2.1 ≠ WriteRe
       WState.objWriteString, WState.arrWriteValue, WState.startContainer, WState.finishObject,
       WState.finishArray, WState.popOrDone, Writer.appendBytes] at h ⊢ <;>
     (try split at h) <;> (try split) <;> simp_all
+
+/-- every writer state reachable from a fresh one by any call sequence (errors included) -/
+def Reachable (w : Writer) : Prop := ∃ ops : List WOp, w = (({} : Writer).run ops).2
+
+theorem reachable_inv {w : Writer} (h : Reachable w) : WInv w := by
+  obtain ⟨ops, rfl⟩ := h
+  exact (run_refines ops {} winv_fresh).2.2
+
+/-- **each call is answered exactly as the document grammar answers it**: in every reachable
+    state (any stack of open containers, any fill level) and for each of the operations, the
+    status code is the one `Spec/Grammar.G.step` gives for the document built so far — `Ok` iff the
+    value fits (root slot free; key due and a string offered and pairs left; value due; array slot
+    left; finish matches the innermost container and it is full), otherwise the documented code —
+    and the writer afterwards stands for the grammar's document afterwards -/
+theorem C03_call_answered_by_grammar (w : Writer) (h : Reachable w) (op : WOp) :
+    (w.step op).2.1 = (w.abs.step op.tok).2 ∧ (w.step op).1.abs = (w.abs.step op.tok).1 :=
+  let r := step_refines w (reachable_inv h) op; ⟨r.1, r.2.1⟩
+
+/-- **every finite call sequence**, including those that keep going after errors and after
+    completion: the statuses, call by call, are the grammar's, and so is the final document -/
+theorem C03_history_answered_by_grammar (ops : List WOp) :
+    ((({} : Writer).run ops).1 = (G.empty.run (ops.map WOp.tok)).1) ∧
+    ((({} : Writer).run ops).2.abs = (G.empty.run (ops.map WOp.tok)).2) :=
+  let r := run_refines ops {} winv_fresh; ⟨r.1, r.2.1⟩
+
+/-- **the document is reported complete exactly when the root value has been closed** -/
+theorem C03_complete_iff_root_closed (w : Writer) (h : Reachable w) :
+    (w.finalize).1 = WriteResult_Ok ↔ w.abs = .complete := by
+  have hI := reachable_inv h
+  obtain ⟨fs, hfs⟩ := framesOf_some hI.stackOk
+  unfold Writer.finalize Writer.abs
+  cases hst : w.st <;> simp [hst, WState.frame, hfs]
+
+/-- once complete, every further call is rejected and the document stays complete -/
+theorem C03_complete_is_final (t : Tok) : (G.complete.step t).1 = .complete ∧ (G.complete.step t).2 ≠ WriteResult_Ok := by
+  cases t <;> simp [G.step, G.value]
+
+/-- the grammar itself never changes the document on a rejected call -/
+theorem C03_grammar_reject_noop (g : G) (t : Tok) (h : (g.step t).2 ≠ WriteResult_Ok) : (g.step t).1 = g := by
+  cases t <;> cases g <;> simp [G.step, G.value] at h ⊢ <;>
+    (try split at h) <;> (try split) <;> (try split at h) <;> simp_all
+
+/-- non-vacuity: a reachable state two containers deep with a key waiting -/
+example : Reachable { out := #[0x91, 0x82, 0xa0], st := .obj 2 1, stack := [.arr 1 1] } :=
+  ⟨[.arr 1, .obj 2, .strAlloc 0], by simp [Writer.run, Writer.step, WState.startContainer, WState.writeString, WState.arrWriteValue, WState.objWriteString, Writer.appendBytes, encArrLen, encMapLen, encStrLen]⟩
 
 end SfVerif.Props.C03
